@@ -22,7 +22,14 @@ func init() {
 // quick: all quantities 0..2200, boundaries, a random sample; thorough: every quantity 0..65535.
 func sweepNewArgs(kind string, tier string, rng *rand.Rand, shard, nshards int, framings []string, emit emitter) {
 	i := 0
-	hdr := func() (int, int, int) { return tidv(rng), u8(rng), u16(rng) }
+	hn := 0
+	hdr := func() (int, int, int) {
+		hn++
+		if hn%8 == 0 {
+			return tidv(rng), u8(rng), 0 // the first address
+		}
+		return tidv(rng), u8(rng), u16(rng)
+	}
 	for _, fr := range framings {
 		// read functions: quantity axis
 		for _, fc := range []int{1, 2, 3, 4} {
@@ -76,7 +83,28 @@ func sweepNewArgs(kind string, tier string, rng *rand.Rand, shard, nshards int, 
 					continue
 				}
 				emit(newreqOp(kind, 15, fr, tid, unit, addr, 0, false, 0, "-", rbits(rng, n)))
+				if n >= 1 && (n <= 24 || n%16 == 0 || n >= 1960) {
+					// a pattern that ends exactly at the last coil address, one that ends one before, one that would end one after
+					for _, e := range []int{65536, 65535, 65537} {
+						if e-n >= 0 && e-n <= 65535 {
+							emit(newreqOp(kind, 15, fr, tid, unit, e-n, 0, false, 0, "-", rbits(rng, n)))
+						}
+					}
+				}
 			}
+		}
+		// FC15 / FC16 / FC23 at the first address with every small count (frames whose address and count bytes look like
+		// other things: a protocol id of zero, a length)
+		for n := 1; n <= 60; n++ {
+			i++
+			tid, unit, _ := hdr()
+			if !mine(i, shard, nshards) {
+				continue
+			}
+			emit(newreqOp(kind, 15, fr, tid, unit, 0, 0, false, 0, "-", rbits(rng, n)))
+			emit(newreqOp(kind, 16, fr, tid, unit, 0, 0, false, 0, hx(rbytes(rng, 2*n)), "-"))
+			emit(newreqOp(kind, 23, fr, tid, unit, 0, 7+2*n, false, u16(rng), hx(rbytes(rng, 2*n)), "-"))
+			emit(newreqOp(kind, 23, fr, tid, unit, 0, n, false, 0, hx(rbytes(rng, 2*n)), "-"))
 		}
 		// FC16: payload byte length axis 0..300 (+ the conversion wrap at 131072+)
 		for r := 0; r < reps*2; r++ {
@@ -589,6 +617,9 @@ func genC09(tier string, rng *rand.Rand, shard, nshards int, emit emitter) {
 					continue
 				}
 				a := u16(rng)
+				if i%8 == 0 {
+					a = 0
+				}
 				var pdu []byte
 				switch fc {
 				case 1, 2, 3, 4, 5:
@@ -914,6 +945,21 @@ func genC03(tier string, rng *rand.Rand, shard, nshards int, emit emitter) {
 			}
 		}
 	}
+	// exception frames of every unit id (0 = broadcast, 248..255 = reserved range included): correctly checksummed and
+	// with one bit of the trailer flipped
+	for u := 0; u < 256; u++ {
+		i++
+		if !mine(i, shard, nshards) {
+			continue
+		}
+		f := withCRC([]byte{byte(u), byte(128 + rng.Intn(128)), byte(u8(rng))})
+		bad := append([]byte{}, f...)
+		bad[3+rng.Intn(2)] ^= 1 << uint(rng.Intn(8))
+		for _, e := range []string{"aserrRC", "respRC"} {
+			emit(parseOp(e, f, poison(rng)))
+			emit(parseOp(e, bad, poison(rng)))
+		}
+	}
 	// re-encoding of parsed RTU responses ends with the CRC
 	for k := 0; k < 400; k++ {
 		i++
@@ -1035,6 +1081,11 @@ func genC11(tier string, rng *rand.Rand, shard, nshards int, emit emitter) {
 		}
 		fr := []string{"t", "r"}[n%2]
 		emit(newreqOp("newreq", 15, fr, tidv(rng), u8(rng), rng.Intn(60000), 0, false, 0, "-", rbits(rng, n)))
+		if n <= 24 || n%16 == 0 || n >= 1960 {
+			// the pattern that ends exactly at the last coil address (its last coil set), and the one at the first address
+			emit(newreqOp("newreq", 15, fr, tidv(rng), u8(rng), 65536-n, 0, false, 0, "-", strings.TrimPrefix(rbits(rng, n-1), "-")+"1"))
+			emit(newreqOp("newreq", 15, fr, tidv(rng), u8(rng), 0, 0, false, 0, "-", rbits(rng, n)))
+		}
 		if n%8 == 0 {
 			emit(newreqOp("newreq", 15, []string{"r", "t"}[n%2], tidv(rng), u8(rng), rng.Intn(60000), 0, false, 0, "-", strings.Repeat("1", n)))
 		}
